@@ -1961,6 +1961,10 @@ class Engine:
             # generic element: evaluate the element expression once for an arbitrary member
             ev = self.U.fresh("elem")
             path.ghost.setdefault("elem_of", {})[ev.get_id()] = seq
+            # an arbitrary member: ev = seq[j] for some index j (so element-wise facts about seq apply to it)
+            j = z3.FreshConst(z3.IntSort(), "j")
+            path.assume_fact(z3.And(j >= 0, j < z3.Length(seq), ev == seq[j]))
+            path.sub_roots[ev.get_id()] = True
             self.assign(path, sub, g.target, self.from_pv(ev, path))
             h = self.ext_models.get("<elem_assume>")
             if h:
